@@ -1,6 +1,7 @@
 // instantiation driver (no logic): MultiGrid + MultiGridHierarchy over LAFEM matrices, filters, transfers
 #include <kernel/lafem/sparse_matrix_csr.hpp>
 #include <kernel/lafem/sparse_matrix_bcsr.hpp>
+#include <kernel/lafem/sparse_matrix_bwrappedcsr.hpp>
 #include <kernel/lafem/dense_vector.hpp>
 #include <kernel/lafem/dense_vector_blocked.hpp>
 #include <kernel/lafem/unit_filter.hpp>
